@@ -25,7 +25,7 @@ type hprog struct {
 	seed    uint64
 }
 
-var progNames = [...]string{"decline", "exact", "mixed", "error-at-k", "garbage-offset-at-k", "re-entrant"}
+var progNames = [...]string{"decline", "exact", "mixed", "error-at-k", "garbage-offset-at-k", "re-entrant", "recursive-walker"}
 
 type bufCall struct {
 	fn   int
@@ -124,6 +124,24 @@ func progAnswer(t *transcript, call *bufCall, idx int, key, d []byte, buf *rjson
 		}
 		return 0, nil
 	}
+	if pg.kind == 6 {
+		// recursive walker: every container member is traversed by a nested Handle*Values call that
+		// shares the enclosing call's Buffer, all the way down (thousands of live levels of
+		// re-entry for deep documents; seeded change C14r4-m1 limited re-entry to 1,000 per Buffer)
+		q := refmodel.SkipWS(d, 0)
+		if q < len(d) && (d[q] == '[' || d[q] == '{') {
+			inner := &bufCall{fn: 3, prog: hprog{kind: 6}}
+			if d[q] == '{' {
+				inner.fn = 4
+			}
+			p, err := execBufCall(t, inner, d, buf, level+1)
+			if err != nil {
+				return 0, errHandlerAbort
+			}
+			return p, nil
+		}
+		return 0, nil
+	}
 	// re-entrant: call back into the library with the same buffer as the enclosing call
 	r := workload.NewRand(int64(pg.seed), uint64(idx)*31+uint64(level))
 	if level >= 4 {
@@ -213,6 +231,9 @@ func genHistory(seed int64, index uint64, allowHuge bool) []bufCall {
 		if r.Intn(3) == 0 {
 			kind = 5
 		}
+		if r.Intn(25) == 0 {
+			kind = 6
+		}
 		c.prog = hprog{kind: kind, k: r.Intn(4), garbage: []int{-1, -100, 1 << 40, len(doc) + 1, len(doc) + 7, 1, 2}[r.Intn(7)], mask: r.Uint64(), seed: r.Uint64()}
 	}
 	if index%40 == 7 {
@@ -228,7 +249,15 @@ func genHistory(seed int64, index uint64, allowHuge bool) []bufCall {
 		if calls[0].fn == 3 && calls[0].doc[0] != '[' {
 			calls[0].fn = 4
 		}
-		for i := 1; i < len(calls); i += 2 + r.Intn(3) {
+		// and a recursive walker over a nest of 1,001..3,000 levels (every level a live re-entrant call)
+		wd := []int{1001, 1500, 3000}[r.Intn(3)]
+		wdoc := workload.BuildNest(workload.NestPatterns[r.Intn(12)], wd, "0", wd)
+		wfn := 3
+		if wdoc[0] == '{' {
+			wfn = 4
+		}
+		calls[len(calls)-1] = bufCall{fn: wfn, doc: wdoc, prog: hprog{kind: 6}}
+		for i := 1; i < len(calls)-1; i += 2 + r.Intn(3) {
 			d := []int{9999, 10000, 10001, 10002, 10003}[r.Intn(5)]
 			calls[i] = bufCall{fn: r.Intn(5), doc: workload.BuildNest(workload.NestPatterns[r.Intn(12)], d, []string{"", "0"}[r.Intn(2)], d), prog: hprog{kind: r.Intn(3), mask: r.Uint64()}}
 		}
@@ -242,8 +271,20 @@ func RunC14(c *Ctx) {
 		calls := genHistory(c.Seed, index, true)
 		var shared rjson.Buffer
 		prevKind := "start"
+		// the documents of one history arrive in ONE reused input buffer (the way a program reads
+		// lines or messages into a scratch slice): the same address, refilled with different bytes
+		// (seeded change C14r4-m2 memoised the last skipped value by slice address and length)
+		inbuf := make([]byte, 1<<16)
 		for i := range calls {
 			call := &calls[i]
+			if len(call.doc) <= len(inbuf) && index%3 != 0 {
+				n := copy(inbuf, call.doc)
+				if n < len(inbuf) {
+					inbuf[n] = ']' // stale-looking byte just behind the window
+				}
+				call.doc = inbuf[:n]
+				c.Rec.C("calls_on_a_refilled_input_buffer")
+			}
 			c.Mark(fmt.Sprintf("C14 history %d call %d %s/%s", index, i, bufFnNames[call.fn], progNames[call.prog.kind]), call.doc)
 			var t1, t2 transcript
 			var p1, p2 int
